@@ -201,6 +201,9 @@ def _gen_C06(rng, tier):
         cls = rng.choice(['D', 'U', 'D', 'U', 'DM', 'UM', 'DW', 'UW'])
         lk = rng.choice(['none', 'int', 'str'] if tier == 'quick' else G.LABEL_KINDS_ALL) if cls in ('D', 'U') else ('mult' if cls in ('DM', 'UM') else 'dbl')
         out.append(G.eq_pair(rng, cls, lk))
+    for _ in range(60 if tier == 'quick' else 400):          # hubs of more than 32 neighbours, all classes
+        cls = rng.choice(['D', 'U', 'U', 'DM', 'UM', 'DW', 'UW'])
+        out.append(G.eq_big(rng, cls, rng.choice(['none', 'int', 'str']) if cls in ('D', 'U') else ('mult' if cls in ('DM', 'UM') else 'dbl')))
     return out
 def route_eq(case):
     t = case.split()
@@ -389,7 +392,8 @@ PROPS = {
              matrix=lambda tier: CXX_MATRIX if tier == 'quick' else CXX_MATRIX_THOROUGH, nontrivial=lambda c, I: len(c.split(':', 1)[1].strip()) > 8,
              model_name='all class / path-search / IO models (every call defined: no UBk / Undef outcome)',
              rule='a sample of the cases of every other check (histories on all eight classes incl. forced insertions and rejected calls, equality / conversion / constructor / subgraph '
-                  'cases, path searches and Dijkstra, well-formed, truncated and malformed files) run (i) in the base configuration g++ -O1 with ASan+UBSan and compared with the Coq models '
+                  'cases, path searches and Dijkstra incl. chains and rings of 130-300 vertices, well-formed, truncated and malformed files; removeEdge / removeVertexFromEdgeList are handed '
+                  'references to elements of the graph\'s own adjacency lists) run (i) in the base configuration g++ -O1 with ASan+UBSan and compared with the Coq models '
                   'and spec oracles, (ii) in every configuration of the build matrix (g++ -O0 with the checked standard library _GLIBCXX_DEBUG, g++ -O2 with _GLIBCXX_ASSERTIONS, '
                   'clang++ -O2 with ASan+UBSan; thorough adds clang++ -O0 debug STL, g++ -O3 sanitised, g++ -O0 under valgrind memcheck): every configuration must finish every case '
                   'normally and print byte-for-byte what the base configuration printed; non-trivial = non-empty case',
